@@ -28,6 +28,7 @@ type hxAuthScript struct {
 	lines     [][]byte
 	replies   []string // full reply lines without CRLF, consumed in order
 	dropAfter int      // >0: drop the connection instead of sending reply number dropAfter
+	irOptional bool    // a conforming server: "AUTH <mech>" without initial response is answered by an empty 334 challenge (RFC 4954 section 4)
 	scramFix  bool     // rewrite an "r=PLACEHOLDER" server-first so that it extends the client nonce
 	sent      int
 }
@@ -40,6 +41,11 @@ func (a *hxAuthScript) handle(s *hxSrv, line string) {
 	if a.dropAfter > 0 && a.sent >= a.dropAfter {
 		s.inAuth = false
 		s.dropped = true
+		return
+	}
+	if a.irOptional && a.sent == 1 && (line == "AUTH PLAIN" || line == "AUTH XOAUTH2") {
+		s.inAuth = true
+		s.out = append(s.out, "334 \r\n"...)
 		return
 	}
 	if len(a.replies) == 0 {
@@ -73,6 +79,17 @@ func HarnessC14Plain() {
 	for _, c := range append(append([]byte{}, user...), pass...) {
 		svAssume(c != 0)
 	}
+	// long credentials: with them "AUTH <mech> <initial-response>" exceeds the
+	// 512-octet command line limit; a client may then hold the response back
+	// until the server's empty challenge (RFC 4954 section 4)
+	if svParam("long", 0) == 1 && svPick("credential-length", 2) == 1 {
+		pad := make([]byte, 400)
+		for i := range pad {
+			pad[i] = 'a' + byte(i%26)
+		}
+		pass = append(pad, pass...)
+		svReach("long-credentials")
+	}
 	mech := svPick("mech", 3) // 0 PLAIN, 1 LOGIN, 2 XOAUTH2
 	// the same Auth object may have been used before: 0 fresh, 1 an earlier
 	// exchange that the server rejected at its last step, 2 an earlier accepted
@@ -94,7 +111,7 @@ func HarnessC14Plain() {
 	if reuse > 0 {
 		s0 := hxNewSrv([]string{"AUTH PLAIN LOGIN XOAUTH2"})
 		s0.onlyOK = true
-		sc0 := &hxAuthScript{replies: append([]string{}, script...)}
+		sc0 := &hxAuthScript{replies: append([]string{}, script...), irOptional: true}
 		if reuse == 1 {
 			sc0.replies[len(sc0.replies)-1] = "535 5.7.8 authentication credentials invalid"
 		}
@@ -104,7 +121,7 @@ func HarnessC14Plain() {
 	}
 	s := hxNewSrv([]string{"AUTH PLAIN LOGIN XOAUTH2"})
 	s.onlyOK = true
-	sc := &hxAuthScript{replies: script}
+	sc := &hxAuthScript{replies: script, irOptional: true}
 	s.authFn = sc.handle
 	c := hxNewSMTPClient(s)
 	err := c.Auth(a)
@@ -113,6 +130,12 @@ func HarnessC14Plain() {
 		return
 	}
 	svReach("authenticated")
+	// the initial response may have been held back for the empty challenge: the
+	// SASL message is then the second line
+	if mech != 1 && len(sc.lines) == 2 && (string(sc.lines[0]) == "AUTH PLAIN" || string(sc.lines[0]) == "AUTH XOAUTH2") {
+		svReach("initial-response-held-back")
+		sc.lines = [][]byte{append(append(append([]byte{}, sc.lines[0]...), ' '), sc.lines[1]...)}
+	}
 	switch mech {
 	case 0:
 		svAssert(len(sc.lines) == 1, "C14 PLAIN: number of lines")
